@@ -320,10 +320,19 @@ def structural(tier, res):
              'parse_expression', 'evaluate', 'get_function', 'extract_merchant_name', 'clean_description', 'fromisoformat',
              '_parse_date_string', 'SequenceMatcher', 'ratio', 'compile', 'stdev', 'dump', 'fmt'}
 
+    MODS = ('tally.expr_parser', 'tally.merchant_engine', 'tally.merchant_utils', 'tally.modifier_parser', 'tally.classification', 'tally.section_engine')
+    index = frames.PackageIndex({m: extract.module(m) for m in MODS})
+    W = frames.callee_writes(index, fresh)
+
     def add(q, allowed, extra_fresh=()):
         fi = find_function(q)
         res.functions[q] = fi.describe()
         out.extend(frames.check_assigns(fi, set(allowed), fresh | set(extra_fresh), proof_state=('_regex_cache', '_expression_cache')))
+        # ... and what the functions it calls write through their parameters (a helper that rewrites a supplemental row handed to it, say)
+        parts = q.split('.')
+        key = next((k for k in ((('.'.join(parts[:-1]), None, parts[-1])), ('.'.join(parts[:-2]), parts[-2], parts[-1])) if k in index.fn), None)
+        if key is not None:
+            out.extend(frames.check_call_frames(fi, key, index, W, set(allowed), fresh | set(extra_fresh), proof_state=('_regex_cache', '_expression_cache')))
     eng = ME + 'MerchantEngine.'
     for m in ('_evaluate_variables', '_evaluate_let_bindings', '_evaluate_fields', '_resolve_tags', 'match'):
         add(eng + m, [])
